@@ -14,7 +14,7 @@ LEAN_MODULE = 'Proofs.C14'
 THEOREMS = ['Fsic.C14.' + n for n in [
     'scan_render_go', 'scan_render', 'layout_invariance_scan', 'termsOf_congr', 'layout_invariance_terms',
     'explicit_zero', 'split_concat_lines', 'split_concat_error', 'split_concat', 'blank_and_comment_lines_neutral',
-    'normaliseWs_idempotent']]
+    'normaliseWs_idempotent', 'parseBody_render', 'nf_reparse', 'normal_form_fixed_point', 'holes_spell']]
 RULE = ('random C01-grammar programs (six generator configurations incl. verbatim fragments, named periods, LHS '
         'offsets, fenced blocks) and the exhaustive small-statement tier; each under every single transformation of '
         'the layout catalogue (tight, wide, spaces inside braces / angle brackets / index brackets, explicit [0], '
@@ -30,9 +30,9 @@ ASSUMPTIONS = c13.ASSUMPTIONS + ['"meaning of the generated code" is compared as
                                  'as name-indexed maps for permutations (order differences are recorded, not alarmed)']
 
 META = {
-    "text": "Proved for all inputs on model M2: scan_render — for every well-formed token list (inert chunks, `<` operator, variables with/without adjacent index `[ w1 text w2 ]`, `{ w1 n w2 }` / `< w1 n w2 >` terms with optional index, functions `n w (`, keywords of the reflected keyword.kwlist, verbatim fragments) and EVERY choice of the whitespace strings, scanning the rendered text returns exactly the tokens' (kind, name, raw index, span) in order; layout_invariance_scan / layout_invariance_terms — two layouts of the same tokens give the same matches and the same parsed terms (kind, name, lag/lead index), explicit `[0]` = no index; split_concat — after a complete part the line-buffer automaton is back in its initial state, so the statements of l1 ++ l2 (and of s1 ++ '\\n' ++ s2) are those of the parts, an error in the first part is final, blank and comment-only lines are neutral; normaliseWs is idempotent. On every run the driver confirms that the statements of the generated scripts under every layout satisfy the hypotheses of scan_render (executable checker wfB, proved sound).",
+    "text": "Proved for all inputs on model M2: scan_render — for every well-formed token list (inert chunks, `<` operator, variables with/without adjacent index `[ w1 text w2 ]`, `{ w1 n w2 }` / `< w1 n w2 >` terms with optional index, functions `n w (`, keywords of the reflected keyword.kwlist, verbatim fragments) and EVERY choice of the whitespace strings, scanning the rendered text returns exactly the tokens' (kind, name, raw index, span) in order; layout_invariance_scan / layout_invariance_terms — two layouts of the same tokens give the same matches and the same parsed terms (kind, name, lag/lead index), explicit `[0]` = no index; split_concat — after a complete part the line-buffer automaton is back in its initial state, so the statements of l1 ++ l2 (and of s1 ++ '\\n' ++ s2) are those of the parts, an error in the first part is final, blank and comment-only lines are neutral; normaliseWs is idempotent. Re-parse round trip on the token grammar: parseBody_render (for every well-formed statement token list and layout, parse_equation returns the tokens' terms and equation/code = normalised template filled with the terms' texts), nf_reparse (with a normalised template the equation is the token list re-spelled name[t±k]), normal_form_fixed_point (parsing the feed-back form [0]/[+k]/[-k] of the equation tokens reproduces the equation text, given Stable index spellings), plus evaluated round trips of equation and code on concrete statements. On every run the driver confirms that the statements of the generated scripts under every layout satisfy the hypotheses of scan_render (executable checker wfB, proved sound).",
     "design_ref": "DESIGN.md §5 M2, §6 C14 (and C01 scan_render), §7 row 11, §10 fall-back, Appendix C",
-    "note": "scan_render is fully proved for the token grammar above (not a _partial); outside it: a literal `{` that is not a parameter, identifiers glued to numbers (`1e5`), empty index text. layout_invariance is proved at scanner/term level; the step to Symbols (Symbol.combine, cross-statement merge, permutation) and the normal-form fixed point at symbol level belong to M3 and are covered here by the metamorphic oracle on the real code (layouts, merge of single-statement parses, permutations, re-parse of normalised equations) and by strict correspondence. Known findings (open; the regex patch was not applied to /repo): whitespace between a name and `[` is not neutral; whitespace inside/before the index brackets of the left-hand side is rejected. Statements are given to the model exactly as to the code (a trailing comment passed directly to parse_equation is lexed by both; through parse_model it is stripped by both).",
+    "note": "scan_render is fully proved for the token grammar above (not a _partial); outside it: a literal `{` that is not a parameter, identifiers glued to numbers (`1e5`), empty index text. The fixed-point theorems carry decidable side conditions (Wf of the statement and of its two sides, first '=' in the middle chunk, balanced braces inside terms only, indexes parse, symbol stage accepts, template already normalised, Stable index spellings); not proved: that normaliseWs distributes over the template holes of an arbitrary token list, Stable for all integer indexes (core digit lemma proved), the code text in general. layout_invariance is proved at scanner/term level; the step to Symbols (Symbol.combine, cross-statement merge, permutation) and the normal-form fixed point at symbol level belong to M3 and are covered here by the metamorphic oracle on the real code (layouts, merge of single-statement parses, permutations, re-parse of normalised equations) and by strict correspondence. Known findings (open; the regex patch was not applied to /repo): whitespace between a name and `[` is not neutral; whitespace inside/before the index brackets of the left-hand side is rejected. Statements are given to the model exactly as to the code (a trailing comment passed directly to parse_equation is lexed by both; through parse_model it is stripped by both).",
     "technique": "Lean 4 proof (single-step lemma per regex alternative + induction over the token list with a boundary condition; automaton decomposition; invariants of the three substitutions) + differential correspondence + metamorphic oracle"
 }
 
